@@ -157,6 +157,9 @@ func propC07(c *Ctx, r *Report) {
 
 	ruleHoldingWindow(c, r, "C07-R3/holding-window")
 	ruleAveragesEraFree(c, r, "C07-R3/averages-era-free")
+	// the averages priced with are those of a window a reload would produce (shared with C09)
+	r.rule("C07-R3/average-window", 1, "the incrementally maintained averaging window equals a reloaded one in size and membership")
+	windowSize(c, r, "C07-R3/average-window")
 
 	r.rule("C07-R3/no-carried-state", 1, "the holding executor's window and rates come from the database")
 	ruleNoCarriedReads(c, newSharedAnalysis(c), r, "C07-R3/no-carried-state", reachOf(c, "node.Pegnetd.ApplyTransactionBatchesInHolding"), carriedAllowedAverages, "the holding executor")
@@ -413,6 +416,8 @@ func propC07(c *Ctx, r *Report) {
 }
 
 func ruleHoldingWindow(c *Ctx, r *Report, rule string) {
+	defer holdingSelectorOneHeight(c, r, rule)
+	defer holdingAveragesAlways(c, r, rule)
 	// R3 window and averages
 	r.rule(rule, 3, "held batches of [last rated height, current) with that height's averages")
 	hold := c.fn("node.Pegnetd.ApplyTransactionBatchesInHolding")
@@ -477,6 +482,68 @@ func ruleHoldingWindow(c *Ctx, r *Report, rule string) {
 		}
 	}
 
+}
+
+// holdingAveragesAlways: the averages handed to applyTransactionBatch by the holding executor are the result of
+// GetPegNetRateAverages on every path (never a nil map left over from a skipped call): Convert decides from the
+// executing height whether it needs them.
+func holdingAveragesAlways(c *Ctx, r *Report, rule string) {
+	hold := c.fn("node.Pegnetd.ApplyTransactionBatchesInHolding")
+	for _, ci := range c.findCallsFam(hold, "node.Pegnetd.applyTransactionBatch") {
+		var parts []string
+		okk := true
+		for _, l := range c.originLeaves(ci.Common().Args[4], c.RSync) {
+			d := "?"
+			switch y := l.(type) {
+			case *ssa.Const:
+				d = "nil"
+			case *ssa.TypeAssert:
+				if call, ok := y.X.(*ssa.Call); ok {
+					d = shortCallee(call.Common())
+				}
+			case *ssa.Call:
+				d = shortCallee(y.Common())
+			case *ssa.Extract:
+				if call, ok := y.Tuple.(*ssa.Call); ok {
+					d = shortCallee(call.Common())
+				}
+				if ta, ok := y.Tuple.(*ssa.TypeAssert); ok {
+					if call, ok := ta.X.(*ssa.Call); ok {
+						d = shortCallee(call.Common())
+					}
+				}
+			}
+			parts = append(parts, d)
+			if d != "GetPegNetRateAverages" {
+				okk = false
+			}
+		}
+		sort.Strings(parts)
+		r.check(okk && len(parts) > 0, rule, "averages of the holding executor come from GetPegNetRateAverages on every path", c.ipos(ci), "", "the averages argument can be ["+strings.Join(dedupStrings(parts), ",")+"]: Convert applies PIP-10 from the executing height, so a nil map there drops every conversion of the block")
+	}
+}
+
+// holdingSelectorOneHeight: the holding selector returns the batches of exactly the height it is asked for (the
+// executor calls it once per height of the window).
+func holdingSelectorOneHeight(c *Ctx, r *Report, rule string) {
+	sel := c.fn("pegnet.Pegnet.SelectTransactionBatchesInHoldingAtHeight")
+	found := false
+	for _, st := range buildSQLCat(c).Stmts {
+		if st.Fn != sel && !c.inFamily(st.Fn, sel) {
+			continue
+		}
+		if st.Verb != "SELECT" {
+			continue
+		}
+		found = true
+		w := strings.ReplaceAll(strings.ToUpper(strings.Join(strings.Fields(st.Where), " ")), `"`, "")
+		w = strings.TrimSuffix(strings.TrimSpace(strings.TrimPrefix(w, "WHERE ")), ";")
+		okk := st.Table == "pn_transaction_batch_holding" && (w == "HEIGHT == ?" || w == "HEIGHT = ?" || strings.HasPrefix(w, "HEIGHT == ? ORDER") || strings.HasPrefix(w, "HEIGHT = ? ORDER")) && !st.Unres
+		r.check(okk, rule, "holding selector reads the batches of one height", c.ipos(st.Site), "WHERE height = ?", "the selector's predicate is `"+oneLine(st.Where)+"`: called once per height of the window, it returns batches of other heights as well, so a batch is considered more than once (a rejected one can then execute)")
+	}
+	if !found {
+		r.viol(rule, "statement of SelectTransactionBatchesInHoldingAtHeight", c.pos(sel.Pos()), "no SELECT found in the holding selector")
+	}
 }
 
 func ruleAveragesEraFree(c *Ctx, r *Report, rule string) {
